@@ -719,7 +719,8 @@ Lemma rf_base_append : forall b head prev tag meta payload,
   rp_out (rf_scan (wm_rlog r2)) = {| rc_off := off; rc_tag := tag; rc_meta := meta; rc_pay := payload |} :: rp_out (rf_scan (wm_rlog r)) /\
   rf_ref r2 c /\ wm_ck_offset c = off /\ fm_payload_length (wm_ck_hdr c) = rf_len payload /\
   In (wm_ck_offset c, wm_ck_hdr c) (wm_disk r2) /\
-  rf_ref r2 (wm_b_source_head b) /\ rf_ref r2 (wm_b_signal_head b) /\ rf_ref r2 (wm_b_ud_head b).
+  rf_ref r2 (wm_b_source_head b) /\ rf_ref r2 (wm_b_signal_head b) /\ rf_ref r2 (wm_b_ud_head b) /\
+  c = {| wm_ck_offset := off; wm_ck_hdr := h1 |}.
 Proof.
   intros b head prev tag meta payload (Hr & H1 & H2 & H3) Href Htag Ht Hm Hlen r off h r1 h1 r2 c.
   pose proof (rf_append_link r head prev tag meta payload Hr Href Htag Ht Hm Hlen) as X. cbv zeta in X.
@@ -729,7 +730,7 @@ Proof.
   split; [exact Hr2|]. split; [exact Hext|]. split; [exact Hoff|]. split; [exact Hout2|].
   rewrite Hnh. cbn [wm_ck_offset wm_ck_hdr].
   split; [right; exact Hin2|]. split; [reflexivity|]. split; [exact Hpl2|]. split; [exact Hin2|].
-  split; [eapply rf_ref_ext; eauto|]. split; eapply rf_ref_ext; eauto.
+  split; [eapply rf_ref_ext; eauto|]. split; [eapply rf_ref_ext; eauto|]. split; [eapply rf_ref_ext; eauto|reflexivity].
 Qed.
 
 (* ------------------------------------------------------------------ boolean checkers (for concrete states) *)
@@ -809,4 +810,71 @@ Proof.
   split; [|apply N.eqb_eq; exact H8].
   apply existsb_exists in H7. destruct H7 as ([o h] & Hin & E). cbn [fst snd] in E.
   apply andb_true_iff in E as [E1 E2]. apply N.eqb_eq in E1. apply rf_hdr_eqb_eq in E2. subst. exact Hin.
+Qed.
+
+(* ------------------------------------------------------------------ a new track: jls_track_wr_def + jls_track_wr_head *)
+Lemma rf_rok_ext_bok : forall b r2, rf_bok b -> rf_rok r2 -> rf_ext (wm_b_raw b) r2 -> rf_bok (wm_b_set_raw b r2).
+Proof.
+  intros b r2 (Hr & H1 & H2 & H3) Hr2 He. unfold rf_bok. cbn [wm_b_raw wm_b_set_raw wm_b_source_head wm_b_signal_head wm_b_ud_head].
+  split; [exact Hr2|]. split; [eapply rf_ref_ext; eauto|]. split; eapply rf_ref_ext; eauto.
+Qed.
+
+(* jls_track_wr_def: an empty chunk on the signal list *)
+Lemma rf_track_wr_def : forall b sid ty, rf_bok b -> sid < 65536 -> ty < 4 ->
+  let b' := wm_track_wr_def b sid ty in
+  rf_bok b' /\ rf_ext (wm_b_raw b) (wm_b_raw b') /\
+  rp_out (rf_scan (wm_rlog (wm_b_raw b'))) =
+    {| rc_off := wm_fend (wm_b_raw b); rc_tag := fm_track_tag ty JLS_TRACK_CHUNK_DEF; rc_meta := sid; rc_pay := [] |}
+    :: rp_out (rf_scan (wm_rlog (wm_b_raw b))) /\
+  wm_b_source_head b' = wm_b_source_head b /\ wm_b_ud_head b' = wm_b_ud_head b.
+Proof.
+  intros b sid ty Hb Hsid Hty b'. pose proof Hb as (Hr & H1 & H2 & H3).
+  destruct (rf_track_tag_ok ty JLS_TRACK_CHUNK_DEF Hty) as (Htag0 & Htag); [unfold JLS_TRACK_CHUNK_DEF, JLS_TRACK_CHUNK_SUMMARY; lia|].
+  pose proof (rf_base_append b (wm_b_signal_head b) (wm_ck_offset (wm_b_signal_head b)) (fm_track_tag ty JLS_TRACK_CHUNK_DEF) sid [] Hb H2 Htag0 Htag Hsid
+                ltac:(cbv; reflexivity)) as X.
+  cbv zeta in X. change (rf_len []) with 0 in X.
+  subst b'. unfold wm_track_wr_def.
+  destruct (wm_raw_wr (wm_b_raw b) _ []) as [r1 h1]. cbn [fst snd] in X.
+  destruct (wm_update_item_head r1 (wm_b_signal_head b) _) as [r2 sh]. cbn [fst snd] in X.
+  destruct X as (Hr2 & Hext & Hoff & Hout & Hrefc & Hoffc & Hplc & Hinc & R1 & R2 & R3 & _).
+  split. { unfold rf_bok. cbn [wm_b_raw wm_b_set_raw wm_b_set_signal_head wm_b_source_head wm_b_signal_head wm_b_ud_head].
+           split; [exact Hr2|]. split; [exact R1|]. split; [exact Hrefc|exact R3]. }
+  cbn [wm_b_raw wm_b_set_raw wm_b_set_signal_head wm_b_source_head wm_b_ud_head].
+  split; [exact Hext|]. split; [rewrite Hout, Hoff; reflexivity|]. split; reflexivity.
+Qed.
+
+(* jls_track_wr_head of a new track (no HEAD chunk yet): a 128-byte chunk on the signal list *)
+Lemma rf_track_wr_head_first : forall b sid ty, rf_bok b -> sid < 65536 -> ty < 4 ->
+  let b' := fst (wm_track_wr_head b sid (wm_track0 ty)) in
+  let t' := snd (wm_track_wr_head b sid (wm_track0 ty)) in
+  rf_bok b' /\ rf_tok (wm_b_raw b') t' /\ rf_ext (wm_b_raw b) (wm_b_raw b') /\
+  rp_out (rf_scan (wm_rlog (wm_b_raw b'))) =
+    {| rc_off := wm_fend (wm_b_raw b); rc_tag := fm_track_tag ty JLS_TRACK_CHUNK_HEAD; rc_meta := sid;
+       rc_pay := wm_head_payload (repeat 0 16) |} :: rp_out (rf_scan (wm_rlog (wm_b_raw b))) /\
+  wm_tk_type t' = ty /\ wm_tk_offsets t' = repeat 0 16 /\ wm_tk_data_head t' = wm_chunk0 /\
+  wm_b_source_head b' = wm_b_source_head b /\ wm_b_ud_head b' = wm_b_ud_head b.
+Proof.
+  intros b sid ty Hb Hsid Hty b' t'. pose proof Hb as (Hr & H1 & H2 & H3).
+  destruct (rf_track_tag_ok ty JLS_TRACK_CHUNK_HEAD Hty) as (Htag0 & Htag); [unfold JLS_TRACK_CHUNK_HEAD, JLS_TRACK_CHUNK_SUMMARY; lia|].
+  assert (Hpl : rf_len (wm_head_payload (repeat 0 16)) = SIZEOF_track_head) by reflexivity.
+  pose proof (rf_base_append b (wm_b_signal_head b) (wm_ck_offset (wm_b_signal_head b)) (fm_track_tag ty JLS_TRACK_CHUNK_HEAD) sid
+                (wm_head_payload (repeat 0 16)) Hb H2 Htag0 Htag Hsid ltac:(rewrite Hpl; reflexivity)) as X.
+  cbv zeta in X. rewrite Hpl in X.
+  subst b' t'. unfold wm_track_wr_head. change (wm_ck_offset (wm_tk_head (wm_track0 ty)) =? 0) with true. cbv iota.
+  change (wm_tk_offsets (wm_track0 ty)) with (repeat 0 16). change (wm_tk_type (wm_track0 ty)) with ty.
+  destruct (wm_raw_wr (wm_b_raw b) _ (wm_head_payload (repeat 0 16))) as [r1 h1]. cbn [fst snd] in X.
+  destruct (wm_update_item_head r1 (wm_b_signal_head b) _) as [r2 sh]. cbn [fst snd] in X |- *.
+  destruct X as (Hr2 & Hext & Hoff & Hout & Hrefc & Hoffc & Hplc & Hinc & R1 & R2 & R3 & Esh).
+  subst sh. cbn [wm_ck_offset wm_ck_hdr] in *.
+  assert (Hoffnz : wm_raw_chunk_tell (wm_b_raw b) <> 0) by (rewrite Hoff; destruct Hr as (_ & H32 & _); lia).
+  split. { unfold rf_bok. cbn [wm_b_raw wm_b_set_raw wm_b_set_signal_head wm_b_source_head wm_b_signal_head wm_b_ud_head].
+           split; [exact Hr2|]. split; [exact R1|]. split; [exact Hrefc|exact R3]. }
+  cbn [wm_b_raw wm_b_set_raw wm_b_set_signal_head wm_b_source_head wm_b_ud_head].
+  split. { unfold rf_tok, wm_track0, wm_level_count. cbn [wm_tk_set_head wm_tk_data_head wm_tk_index_head wm_tk_summary_head wm_tk_offsets wm_tk_type wm_tk_head wm_ck_offset wm_ck_hdr].
+           split; [apply rf_ref0|]. split; [apply Forall_forall; intros c Hc; apply repeat_spec in Hc; subst c; apply rf_ref0|].
+           split; [apply Forall_forall; intros c Hc; apply repeat_spec in Hc; subst c; apply rf_ref0|].
+           split; [reflexivity|]. split; [exact Hty|]. split; [exact Hoffnz|].
+           split; [exact Hinc|exact Hplc]. }
+  split; [exact Hext|]. split; [rewrite Hout, Hoff; reflexivity|].
+  repeat split.
 Qed.
